@@ -1,12 +1,19 @@
 ------------------------------ MODULE Trace_Stats ------------------------------
-(* C08, code -> spec: recorded statistic calls (named statistics and               *)
-(* sample_count_stat with the numerator as summary function) with results scaled   *)
-(* to integers; the window refinement law; thread-count independence.              *)
+(* C08, code -> spec: recorded statistic calls with results scaled to integers or given as   *)
+(* reduced fractions; the window refinement law; thread-count independence.  Every call      *)
+(* record has a `kind` selecting the definition of TskStats it is compared with.             *)
 EXTENDS TskStats, Json, IOUtils, TLC
 Cases == ndJsonDeserialize(IOEnv.CASES)
 VARIABLE k
-CallFails(ts, c) ==
-  LET nw == Len(c.windows) - 1
+NW(c) == Len(c.windows) - 1
+WL(c, w) == c.windows[w]
+WR(c, w) == c.windows[w + 1]
+Refines(c) == c.fine_windows = <<>> \/
+   \A w \in 1..NW(c) : \A i \in 1..Len(c.result[w]) :
+      c.result[w][i] = FoldSet(LAMBDA q, acc : acc + c.fine_result[q][i], 0,
+                               {q \in 1..(Len(c.fine_windows) - 1) : c.windows[w] <= c.fine_windows[q] /\ c.fine_windows[q + 1] <= c.windows[w + 1]})
+CountFails(ts, c) ==
+  LET nw == NW(c)
       pol == c.polarised = 1
       exp(w, i) ==
         IF c.mode = "site" THEN SiteStat(ts, c.stat, c.sets, c.indexes[i], pol, c.windows[w], c.windows[w + 1])
@@ -17,13 +24,60 @@ CallFails(ts, c) ==
            [] cl = "node_values" -> c.mode # "node" \/ \A w \in 1..nw : \A u \in NodesOf(ts) : \A i \in 1..Len(c.indexes) :
                                       c.result[w][u + 1][i] = NodeStat(ts, c.stat, c.sets, c.indexes[i], pol, c.windows[w], c.windows[w + 1], u)
            \* for any refinement of the windows the (span-weighted) sum of the finer results is the coarser result
-           [] cl = "window_refinement" -> c.fine_windows = <<>> \/ c.mode = "node" \/
-                  \A w \in 1..nw : \A i \in 1..Len(c.indexes) :
-                     c.result[w][i] = FoldSet(LAMBDA q, acc : acc + c.fine_result[q][i], 0,
-                                              {q \in 1..(Len(c.fine_windows) - 1) : c.windows[w] <= c.fine_windows[q] /\ c.fine_windows[q + 1] <= c.windows[w + 1]})
+           [] cl = "window_refinement" -> c.mode = "node" \/ Refines(c)
            [] cl = "threads" -> \A t \in 1..Len(c.threaded) : c.threaded[t] = c.threaded[1]
      }
-Fails(c) == UNION {{c.calls[i].stat \o "_" \o c.calls[i].mode \o "_" \o cl : cl \in CallFails(c.ts, c.calls[i])} : i \in 1..Len(c.calls)}
+OtherFails(ts, c) ==
+  LET pol == c.polarised = 1 IN
+  CASE c.kind = "afs" ->
+         {cl \in {"shape", "values", "window_refinement"} :
+            ~ CASE cl = "shape" -> Len(c.result) = NW(c) /\ \A w \in 1..NW(c) : Len(c.result[w]) = Cardinality(AfsCoords(AllSizes(c.sets)))
+                [] cl = "values" -> \A w \in 1..NW(c) : AfsOK(ts, c.mode, pol, c.sets, WL(c, w), WR(c, w), c.result[w])
+                [] cl = "window_refinement" -> Refines(c)}
+    [] c.kind = "fst" ->
+         {cl \in {"shape", "values"} :
+            ~ CASE cl = "shape" -> Len(c.result) = NW(c)
+                [] cl = "values" -> \A w \in 1..NW(c) : \A i \in 1..Len(c.indexes) : FstOK(ts, c.mode, c.sets, c.indexes[i], WL(c, w), WR(c, w), c.result[w][i])}
+    [] c.kind = "relatedness" ->
+         {cl \in {"shape", "values", "window_refinement"} :
+            ~ CASE cl = "shape" -> Len(c.result) = NW(c)
+                [] cl = "values" -> \A w \in 1..NW(c) : \A i \in 1..Len(c.indexes) :
+                                      c.result[w][i] = Relatedness(ts, c.mode, c.sets, c.indexes[i], c.centre = 1, pol, WL(c, w), WR(c, w))
+                [] cl = "window_refinement" -> Refines(c)}
+    [] c.kind = "general" ->
+         {cl \in {"shape", "values", "node_values", "window_refinement"} :
+            ~ CASE cl = "shape" -> Len(c.result) = NW(c)
+                [] cl = "values" -> c.mode = "node" \/ \A w \in 1..NW(c) :
+                       c.result[w][1] = (IF c.mode = "site" THEN GeneralSite(ts, c.weights, c.fname, pol, WL(c, w), WR(c, w))
+                                         ELSE GeneralBranch(ts, c.weights, c.fname, pol, WL(c, w), WR(c, w)))
+                [] cl = "node_values" -> c.mode # "node" \/ \A w \in 1..NW(c) : \A u \in NodesOf(ts) :
+                       c.result[w][u + 1] = GeneralNode(ts, c.weights, c.fname, pol, WL(c, w), WR(c, w), u)
+                [] cl = "window_refinement" -> c.mode = "node" \/ Refines(c)}
+    [] c.kind = "gnn" ->
+         {cl \in {"shape", "values", "threads"} :
+            ~ CASE cl = "shape" -> Len(c.result) = Len(c.focal)
+                [] cl = "values" -> \A j \in 1..Len(c.focal) : \A t \in 1..Len(c.sets) : GnnOK(ts, c.sets, c.focal[j], t, c.result[j][t])
+                [] cl = "threads" -> \A t \in 1..Len(c.threaded) : c.threaded[t] = c.threaded[1]}
+    [] c.kind = "meandesc" ->
+         {cl \in {"shape", "values"} :
+            ~ CASE cl = "shape" -> Len(c.result) = NumNodes(ts)
+                [] cl = "values" -> \A u \in NodesOf(ts) : \A t \in 1..Len(c.sets) : MeanDescOK(ts, c.sets, u, t, c.result[u + 1][t])}
+    [] c.kind = "paircoal" ->
+         {cl \in {"shape", "values"} :
+            ~ CASE cl = "shape" -> Len(c.result) = NW(c)
+                [] cl = "values" -> \A w \in 1..NW(c) : \A i \in 1..Len(c.indexes) : \A u \in NodesOf(ts) :
+                                      c.result[w][i][u + 1] = PairCoal(ts, c.sets, c.indexes[i], WL(c, w), WR(c, w), u)}
+    [] c.kind = "treedist" ->
+         {cl \in {"rf", "kc_topology", "kc_branch_length"} :
+            ~ CASE cl = "rf" -> c.rf = RF(ts, c.x, c.y, c.rx, c.ry)
+                [] cl = "kc_topology" -> c.kc0 = -1 \/ c.kc0 = KcSquared(ts, c.x, c.y, c.rx, c.ry, 0)
+                [] cl = "kc_branch_length" -> c.kc1 = -1 \/ c.kc1 = KcSquared(ts, c.x, c.y, c.rx, c.ry, 1)}
+    [] c.kind = "ld" ->
+         {cl \in {"r2"} : ~ \A q \in 1..Len(c.pairs) : R2OK(ts, c.pairs[q][1], c.pairs[q][2], c.pairs[q][3])}
+    \* relations evaluated by the harness in floating point (square roots, regressions): see DESIGN 5
+    [] c.kind = "derived" -> {cl \in {"relation"} : c.ok # 1}
+Fails(c) == UNION {{c.calls[i].stat \o "_" \o c.calls[i].mode \o "_" \o cl :
+                      cl \in (IF c.calls[i].kind = "count" THEN CountFails(c.ts, c.calls[i]) ELSE OtherFails(c.ts, c.calls[i]))} : i \in 1..Len(c.calls)}
 Init == k = 0
 Next == k < Len(Cases) /\ k' = k + 1
 Spec == Init /\ [][Next]_k
